@@ -124,6 +124,7 @@ def _tlc(ctx, spec, cfg, extra, env_extra, timeout, workers):
     args = ["timeout", str(int(timeout)), "tlc", "-workers", str(workers), "-metadir", md,
             "-noGenerateSpecTE", "-config", cfg] + extra + [spec]
     env = dict(os.environ)
+    env["JAVA_TOOL_OPTIONS"] = (env.get("JAVA_TOOL_OPTIONS", "") + " -Xss512m").strip()  # deep folds over long traces
     env.update(env_extra or {})
     rc, out, err = run(args, cwd=SPEC, env=env)
     shutil.rmtree(md, ignore_errors=True)
